@@ -85,6 +85,27 @@ def fn_seq(case):
     return (len(set(names)) < len(names), tuple(exp), viols, 4)
 
 
+# -------------------------------------------------------- version ordering
+VERS2 = ["0.9", "1", "1.0", "1.2.3.4", "1.2.3.10", "1.2.3", "1.2.10", "1.10", "1.9.9.9.9", "2.0.0.0.1", "2",
+         "10.0", "9.99", "1.2.3.4.5", "1.2.3.4.10", "01.2.3.4"]
+
+
+def fn_versions(vers):
+    from htmltools import HTMLDependency, Tag, TagList
+    deps = [HTMLDependency("v", v, head=f"<!--m{i}-->") for i, v in enumerate(vers)]
+    exp = [p for (_, _, p) in resolve([("v", v, i) for i, v in enumerate(vers)])]
+    viols = []
+    for how in ("flat", "nested"):
+        tree = TagList(*deps) if how == "flat" else Tag("div", *[Tag("span", d) for d in deps])
+        got = tree.get_dependencies()
+        gi = [next(i for i, d in enumerate(deps) if d is g) for g in got]
+        if gi != exp:
+            viols.append(("resolve:version-order", f"versions {vers}: kept index {gi}, expected {exp} "
+                          "(highest version numerically, earliest on ties)", {"versions": vers}))
+            break
+    return (len(vers) >= 2, tuple(exp), viols, 2)
+
+
 # ---------------------------------------------------------- validation matrix
 ITEM = {"script": {"src": "a.js"}, "stylesheet": {"href": "a.css"}, "meta": {"name": "n", "content": "c"}}
 ITEM2 = {"script": {"src": "b.js", "defer": ""}, "stylesheet": {"href": "b.css", "media": "print"},
@@ -174,6 +195,8 @@ def plan(tier):
         dict(kind="space", name="sequences-x-placements", fn=fn_seq,
              space=Prod(Seq(Const(KINDS), 0, n), Const(PLACEMENTS)),
              note=f"all sequences of <= {n} of {len(KINDS)} dependency kinds x {len(PLACEMENTS)} placements"),
+        dict(kind="space", name="version-order", fn=fn_versions, space=Seq(Const(VERS2), 1, 2 if tier == "quick" else 3),
+             note=f"one name, every sequence of <= 2 (quick) / <= 3 versions over {len(VERS2)} multi-component versions"),
         dict(kind="space", name="constructor-validation", fn=fn_validation, space=Const(validation_cases()),
              note="equal single/list forms and every malformed definition named in the statement"),
     ]
